@@ -55,11 +55,10 @@ class MultiValueTracker(Tracker):
         tracked_values: dict = self.get()
         if len(self._tracked_keys) <= 1:
             return tracked_values
-        try:
-            tracked_values = {key: value / sum(tracked_values.values()) for key, value in tracked_values.items()}
-        except ZeroDivisionError:
-            tracked_values = {key: 0. for key in tracked_values.keys()}
-        return tracked_values
+        total = sum(tracked_values.values())
+        if total == 0:  # NumPy scalars do not raise ZeroDivisionError
+            return {key: 0. for key in tracked_values.keys()}
+        return {key: value / total for key, value in tracked_values.items()}
 
     def __repr__(self):
         return f"MultiValueTracker: {self.get()}"
